@@ -168,13 +168,23 @@ def emit_trait(t):
             if m["flag"] == "more":
                 continue
             o.append("        {")
-            o.append("            let net = new_net(vec![]);")
-            o.append("            let mut conn = Connection::new(SSocket(net.clone()));")
             o.append("            use zlink_core::Call;")
-            o.append(f"            if let Ok(chain) = conn.chain_call::<FirstCall, {outp}, PErr>(&Call::new(FirstCall {{ method: \"org.ex.First\" }})) {{")
-            o.append(f"                if let Ok(chain) = chain.{m['rust']}({args}) {{ let _ = block_on(chain.send()); }}")
+            o.append("            let run_ext = |pad: usize| -> Vec<u8> {")
+            o.append("                let net = new_net(vec![]);")
+            o.append("                let mut conn = Connection::new(SSocket(net.clone()));")
+            o.append(f"                if let Ok(chain) = conn.chain_call::<FirstCall, {outp}, PErr>(&Call::new(FirstCall {{ method: padded_first(pad) }})) {{")
+            o.append(f"                    if let Ok(chain) = chain.{m['rust']}({args}) {{ let _ = block_on(chain.send()); }}")
+            o.append("                }")
+            o.append("                let w = net.borrow().writes.concat(); w")
+            o.append("            };")
+            o.append("            let w0 = run_ext(0);")
+            o.append(f"            out.push(format!(\"{{}} => {{}}\", r###\"proxy {d} FORM ext\"###, after_first(&w0)));")
+            # the same call behind a first call of every length that puts the END of this call next to a growth
+            # step of the write buffer (the call is serialised at a position > 0 there)
+            o.append("            for (t, pad) in ext_pads(&w0) {")
+            o.append("                let r = std::panic::catch_unwind(std::panic::AssertUnwindSafe(|| after_first(&run_ext(pad)))).unwrap_or_else(|_| \"panic\".into());")
+            o.append(f"                out.push(format!(\"{{}} at{{t}} => {{}}\", r###\"proxy {d} FORM ext\"###, r));")
             o.append("            }")
-            o.append(f"            out.push(format!(\"{{}} => {{}}\", r###\"proxy {d} FORM ext\"###, written_after_first(&net)));")
             o.append("        }")
     o.append("    }")
     o.append("}")
